@@ -22,7 +22,7 @@ META = {
     'theorems': ['C12_tables', 'C12_or_left_wins', 'C12_or_fallback', 'C12_or_special', 'C12_or_special_not_inherited',
                  'C12_or_abstract_left', 'C12_and_overlay', 'C12_effective_nonrecursive', 'C12_effective_get',
                  'C12_cascade', 'C12_cascade_complete', 'C12_behaviour', 'C12_auto_tags_partial', 'C12_auto_tags_refuted',
-                 'C12_engines_agree'],
+                 'C12_engines_agree', 'C12_history_fresh', 'C12_history_independent', 'C12_history_refuted'],
     'tables': ['MetaFields'],
     'level_text': ('Theorems proved in Coq for ALL Meta contents (any values, any subset of the settings table regenerated from '
                    'AbstractMeta), ALL nesting shapes (Optional, list, dict value, tuple, Union, intermediate dataclasses with their own '
@@ -146,6 +146,12 @@ def ref_load(e, doc, engine, catchall):
             my_val = v
             continue
         if e.get('tag') and k == tag_key_of(e):
+            continue
+        if k in e.get('_whitelist', ()):
+            # (leak-aware prediction only) a tag key whitelisted by an earlier default-engine load of the class:
+            # never reported as unknown, but a CatchAll field takes it
+            if catchall:
+                captured[k] = v
             continue
         unknown_raises = bool(e.get('raise_on_unknown_json_key')) if engine == 'load' else e.get('v1_on_unknown_key') == 'RAISE'
         if catchall and engine == 'v1load':
@@ -392,6 +398,11 @@ def check_dump(cfg, res, e=None):
         return 'dump raised %s: %s' % (r['err'], (r.get('msg') or '')[:200])
     got = norm_dump(r['ok']['nested'])
     exp = expected_dump(cfg, e)
+    if cfg['probe'] == 'union' and cfg.get('history', 'none') != 'none':
+        # auto-tag assignment after earlier uses of the class: C13 histories
+        ku = dump_key('u', (e if e is not None else effective(cfg['nested'], cfg['root'])).get('key_transform_with_dump'))
+        got = [(k, v) for k, v in got if k != ku]
+        exp = [(k, v) for k, v in exp if k != ku]
     if sorted(map(json.dumps, got)) != sorted(json.dumps([k, v]) for k, v in exp):
         return 'nested dump %r, expected under effective %r' % (got, exp)
     # the root's own part behaves under the root's own Meta
@@ -408,6 +419,8 @@ def check_load(cfg, res, e=None):
     if e is None:
         e = effective(cfg['nested'], cfg['root'])
     for doc, r in zip(cfg['docs'], res['results']):
+        if cfg['probe'] == 'union' and cfg.get('history', 'none') != 'none':
+            continue        # auto-tag assignment after earlier uses of the class: C13 histories
         if cfg['probe'] == 'union':
             want_ok = bool(e.get('auto_assign_tags'))
             if want_ok:
@@ -502,10 +515,20 @@ def coq_cmeta(m):
     return '(Some %s)' % coq_list(['(%s, %s)' % (coq_str(k), coq_sval(v)) for k, v in m.items()])
 
 
+def coq_use(kind, root):
+    return '{| u_kind := %s; u_root := %s |}' % ('UDump' if kind == 'dump' else 'ULoad',
+                                                  'None' if root == 'ALONE' else '(Some %s)' % coq_cmeta(root))
+
+
+def coq_hist(cfg):
+    us = uses_of_nested(cfg)
+    return coq_list([coq_use(k, r) for k, r in us[:-1]]), coq_use(*us[-1])
+
+
 def decode_vector(s, engine):
     """behaviour vector printed by MetaMerge.show_behaviour -> settings dict the reference semantics understand."""
     f = s.split('|')
-    assert len(f) == 13, s
+    assert len(f) == 15, s
 
     def val(x):
         if x in ('-', 'None'):
@@ -536,6 +559,10 @@ def decode_vector(s, engine):
     if val(f[11]) is not None:
         e['v1_field_to_alias'] = {'my_val': {'ROOTMAP': 'zk', 'NESTEDMAP': 'nk'}[val(f[11])]}
     e['auto_assign_tags'] = f[12] == '1'
+    wl = {val(x) for x in f[13].split(',') if x}
+    e['_whitelist'] = wl - ({tag_key_of(e)} if e.get('tag') else set())
+    if val(f[14]) is not None and 'v1_field_to_alias' not in e:
+        e['v1_field_to_alias'] = {'my_val': SPELL[val(f[14])]}     # the alias an earlier v1 load left in the class's table
     return e
 
 
@@ -543,6 +570,70 @@ def decode_vector(s, engine):
 def check_with(cfg, res, e):
     """Outcome check against an explicitly given effective Meta e (decoded from the model's behaviour vector)."""
     return check(cfg, res, e)
+
+
+def cascading(root):
+    return not (root is None or root.get('recursive', True) is False)
+
+
+def uses_of_nested(cfg):
+    """(kind, root Meta or 'ALONE') for every use of the nested class, earlier uses first, the observation last."""
+    h = cfg.get('history', 'none')
+    out = []
+    if h == 'nested_dump':
+        out.append(('dump', 'ALONE'))
+    elif h == 'nested_load':
+        out.append(('load', 'ALONE'))
+    elif h == 'other_root_dump':
+        out.append(('dump', cfg.get('other')))
+    elif h == 'other_root_load':
+        out.append(('load', cfg.get('other')))
+    out.append(('dump' if cfg['engine'] == 'dump' else 'load', cfg['root']))
+    return out
+
+
+SPELL = {None: 'my_val', 'SNAKE': 'my_val', 'CAMEL': 'myVal', 'PASCAL': 'MyVal', 'KEBAB': 'my-val'}
+
+
+def leaky_effective(cfg):
+    """What the UNCHANGED tree does for the nested class after earlier uses (finding F10 seen from C12): the per-class
+    loader / dumper attributes written by bind_to, the dump-key table filled by the first generated dump function, the
+    sticky timestamp hooks, the default engine's whitelisted tag keys and v1's alias table survive from use to use.
+    Returns the Meta the observation behaves under according to that faithful description (equal to effective(...)
+    when nothing leaks).  Skip rules, unknown-key policies, tag and emitted tag key never leak."""
+    own = dict(cfg['nested'] or {})
+    attr = {k: own.get(k) for k in ('key_transform_with_dump', 'key_transform_with_load', 'v1_key_case')}
+    ts = own.get('marshal_date_time_as') == 'TIMESTAMP'
+    dump_keys, have_dump_keys = None, False
+    whitelist, stuck = set(), None
+    e_use = own
+    for kind, root in uses_of_nested(cfg):
+        e_use = effective(cfg['nested'], None if root == 'ALONE' else root)
+        if root != 'ALONE' and cascading(root):
+            for k in attr:
+                if e_use.get(k) is not None:
+                    attr[k] = e_use[k]
+            ts = ts or e_use.get('marshal_date_time_as') == 'TIMESTAMP'
+        if kind == 'dump' and not have_dump_keys:
+            dump_keys, have_dump_keys = attr['key_transform_with_dump'], True
+        if kind == 'load':
+            if e_use.get('v1'):
+                if stuck is None and not (own.get('v1_field_to_alias')) and SPELL[attr['v1_key_case']] != 'my_val':
+                    stuck = SPELL[attr['v1_key_case']]
+            elif e_use.get('tag') is not None:
+                whitelist.add(tag_key_of(e_use))
+    e = dict(e_use)        # effective(nested, root) of the observation
+    if cfg['engine'] == 'dump':
+        e['key_transform_with_dump'] = dump_keys
+        e['marshal_date_time_as'] = 'TIMESTAMP' if ts else None
+    elif cfg['engine'] == 'load':
+        e['key_transform_with_load'] = attr['key_transform_with_load']
+        e['_whitelist'] = whitelist - ({tag_key_of(e)} if e.get('tag') else set())
+    else:
+        e['v1_key_case'] = attr['v1_key_case']
+        if stuck is not None and not own.get('v1_field_to_alias'):
+            e['v1_field_to_alias'] = {'my_val': stuck}
+    return {k: v for k, v in e.items() if v is not None}
 
 
 def in_region_F23(cfg):
@@ -557,6 +648,7 @@ def in_region_F23(cfg):
 
 F22_ID = 'F22-auto-assign-tags-read-from-root-config'
 F23_ID = 'F23-auto-tag-key-unknown-before-first-dump'
+F10_ID = 'F10-C12-earlier-use-leaks-into-cascade'
 
 
 def nontrivial(cfg):
@@ -569,7 +661,7 @@ def run(ctx):
     resolved = set()
     for f in ctx.findings():
         w = f.get('witness')
-        if not isinstance(w, dict) or 'cfg' not in w or f['id'] not in (F22_ID,):
+        if not isinstance(w, dict) or 'cfg' not in w or f['id'] not in (F22_ID, F10_ID):
             continue
         res = ctx.impl('c12', {'configs': [w['cfg']], 'jobs': 1})['results'][0]
         bad = check(w['cfg'], res)
@@ -577,26 +669,30 @@ def run(ctx):
         if bad is None:
             resolved.add(f['id'])      # repaired: the faithful model no longer applies inside that region
         ctx.known_finding(f['id'], still_fails=bad is not None,
-                          what='%s [observed: %s]' % (f['what'], (bad or 'behaves as effective')[:160]))
+                          what='%s [observed: %s]' % (f['what'][:400], (bad or 'behaves as effective')[:160].replace('\n', ' ')))
 
     cfgs = gen_configs(ctx)
     results = ctx.impl('c12', {'configs': cfgs, 'jobs': 14}, timeout=1500)['results']
 
-    # ---- model: behaviour vector per distinct (engine, root, nested) ----
+    # ---- model: behaviour vector per distinct (engine, root, nested, history) ----
+    def mkey(c):
+        return json.dumps([c['engine'], c['root'], c['nested'], c.get('history'), c.get('other')], sort_keys=True)
     triples, index = [], {}
     for c in cfgs:
-        k = json.dumps([c['engine'], c['root'], c['nested']], sort_keys=True)
+        k = mkey(c)
         if k not in index:
             index[k] = len(triples)
-            triples.append((c['engine'], c['root'], c['nested']))
+            triples.append(c)
     model = None
     try:
         exprs = []
-        for eng, root, nested in triples:
-            exprs.append('show_impl %s %s %s' % (ENGINE_COQ[eng], coq_cmeta(root), coq_cmeta(nested)))
-            exprs.append('show_spec %s %s' % (coq_cmeta(root), coq_cmeta(nested)))
+        for c in triples:
+            h, u = coq_hist(c)
+            exprs.append('show_hist %s %s %s' % (coq_cmeta(c['nested']), h, u))
+            exprs.append('show_impl %s %s %s' % (ENGINE_COQ[c['engine']], coq_cmeta(c['root']), coq_cmeta(c['nested'])))
+            exprs.append('show_spec %s %s' % (coq_cmeta(c['root']), coq_cmeta(c['nested'])))
         out = ctx.coq(exprs, ['PyStr', 'MetaMerge'], prelude=PRELUDE)
-        model = {k: (out[2 * i], out[2 * i + 1]) for k, i in index.items()}
+        model = {k: (out[3 * i], out[3 * i + 1], out[3 * i + 2]) for k, i in index.items()}
     except Exception as e:  # noqa
         ctx.broken_tie('model evaluation failed: %s' % str(e)[:500])
 
@@ -611,21 +707,30 @@ def run(ctx):
         ctx.hist('probe', cfg['probe'])
         ctx.hist('style', cfg['style'])
         r22, r23 = in_region_F22(cfg), in_region_F23(cfg)
-        # -- direct predicate: nested behaviour == behaviour under effective(own, root) --
+        hist = cfg.get('history', 'none')
+        ctx.hist('history', hist)
+        if cfg['engine'] != 'dump':
+            ctx.hist('doc_type', cfg.get('doc_type', 'dict'))
+        # -- direct predicate: nested behaviour == behaviour under effective(own, root), whatever happened before --
         bad = check(cfg, res)
         if bad:
             if r22 and ctx.is_open_region(F22_ID):
                 ctx.hist('known_region', F22_ID)
             elif r23 and ctx.is_open_region(F23_ID):
                 ctx.hist('known_region', F23_ID)
+            elif hist != 'none' and ctx.is_open_region(F10_ID) and check(cfg, res, leaky_effective(cfg)) is None:
+                # exactly the manifestation of F10 (per-class loader/dumper attributes, dump-key table, timestamp hooks,
+                # whitelisted tag keys, v1 alias table surviving from the earlier use); anything else is a violation
+                ctx.hist('known_region', F10_ID)
             else:
-                ctx.violation('%s, shape %s: %s' % (cfg['engine'], '/'.join(cfg['shape']) or 'direct', bad),
+                ctx.violation('%s, shape %s, earlier use %s: %s' % (cfg['engine'], '/'.join(cfg['shape']) or 'direct', hist, bad),
                               {'kind': 'config', 'cfg': cfg})
-        # -- correspondence: the Coq model's behaviour vector predicts the implementation's outcome --
+        # -- correspondence: the Coq model (with the earlier uses) predicts the implementation's outcome --
         if model is not None:
-            mk = json.dumps([cfg['engine'], cfg['root'], cfg['nested']], sort_keys=True)
-            v_impl, v_spec = model[mk]
+            v_hist, v_impl, v_spec = model[mkey(cfg)]
             ctx.traces_validated += 1
+            if hist == 'none' and not v_hist.startswith(v_impl + '|'):
+                ctx.broken_tie('Coq: show_hist with no earlier use differs from show_impl', {'cfg': cfg, 'hist': v_hist, 'impl': v_impl})
             if (v_impl != v_spec) != r22 and cfg['probe'] == 'union':
                 ctx.disagreements_checked += 1
                 ctx.broken_tie('Coq region in_region_auto and the harness region predicate disagree',
@@ -636,7 +741,10 @@ def run(ctx):
             if r22 and F22_ID in resolved:
                 ctx.hist('model_comparison_skipped_resolved_finding', F22_ID)
                 continue
-            e_model = decode_vector(v_impl, cfg['engine'])
+            if hist != 'none' and F10_ID in resolved:
+                ctx.hist('model_comparison_skipped_resolved_finding', F10_ID)
+                continue
+            e_model = decode_vector(v_hist, cfg['engine'])
             if cfg['probe'] != 'union':
                 e_model.pop('auto_assign_tags', None)
             bad_m = check_with(cfg, res, e_model)
@@ -645,7 +753,7 @@ def run(ctx):
                 ctx.disagreements_checked += 1
                 if n_ties <= 5:
                     ctx.broken_tie('MetaMerge model and implementation disagree: %s' % bad_m[:300],
-                                   {'cfg': cfg, 'model_vector': v_impl})
+                                   {'cfg': cfg, 'model_vector': v_hist})
     for c, r in list(zip(cfgs, results))[:3]:
         ctx.sample({'config': {k: v for k, v in c.items() if k != 'docs'}, 'docs': c.get('docs', [])[:3],
                     'impl_outcomes': [x if 'err' not in x else {'err': x['err']} for x in r.get('results', [])][:3]})
